@@ -23,6 +23,7 @@ pub fn main(sub: &str, args: &[String]) -> i32 {
     match sub {
         "dom-chardata" => chardata(args),
         "dom-factory" => factory(args),
+        "dom-attrs" => elem_attrs(args),
         "dom-chardata-rerun" => rerun(args),
         _ => {
             eprintln!("unknown subcommand {}", sub);
@@ -675,4 +676,222 @@ pub fn rerun(args: &[String]) -> i32 {
             0
         }
     }
+}
+
+// -------------------------------------------------------------------------------------------------
+// the attributes of one element as a state machine (MC_ElemAttrs.tla): every edge, reached through real calls
+
+const ATTR_DOC: &str = "<!DOCTYPE r [<!ATTLIST r y CDATA \"dv\" z CDATA #IMPLIED>]><r x=\"a\"/>";
+const ATTR_NAMES: [&str; 3] = ["x", "y", "z"];
+
+fn observe_attrs(e: &xml_dom::XmlElement) -> J {
+    let e = e.clone();
+    guarded(move || {
+        let mut m = serde_json::Map::new();
+        for n in ATTR_NAMES {
+            let node = e.get_attribute_node(n);
+            m.insert(
+                n.to_string(),
+                json!({"present": node.is_some(), "v": e.get_attribute(n),
+                       "spec": node.as_ref().map(|a| a.specified()).unwrap_or(false),
+                       "nodev": node.as_ref().map(|a| a.value().unwrap_or_else(|_| "#err".into())).unwrap_or_default()}),
+            );
+        }
+        let mut listed: Vec<String> = vec![];
+        let mut len = 0usize;
+        if let Some(map) = e.as_node().attributes() {
+            use xml_dom::NamedNodeMap;
+            len = map.length();
+            for a in map.iter() {
+                listed.push(a.name());
+            }
+        }
+        listed.sort();
+        json!({"am": m, "listed": listed, "len": len})
+    })
+    .unwrap_or_else(|p| json!({"panic": p}))
+}
+
+fn exec_attr(e: &xml_dom::XmlElement, c: &J) -> J {
+    let op = c["op"].as_str().unwrap_or("").to_string();
+    let n = c["n"].as_str().unwrap_or("").to_string();
+    let v = c["v"].as_str().unwrap_or("").to_string();
+    let e = e.clone();
+    let r = guarded(move || -> Result<J, xml_dom::error::Error> {
+        use xml_dom::NamedNodeMapMut;
+        Ok(match op.as_str() {
+            "set_attribute" => {
+                e.set_attribute(&n, &v)?;
+                json!({"ok": true, "ret": ""})
+            }
+            "remove_attribute" => {
+                e.remove_attribute(&n)?;
+                json!({"ok": true, "ret": ""})
+            }
+            "get_attribute" => json!({"ok": true, "ret": e.get_attribute(&n)}),
+            "set_value" => match e.get_attribute_node(&n) {
+                Some(a) => {
+                    a.set_value(&v)?;
+                    json!({"ok": true, "ret": ""})
+                }
+                None => json!({"ok": true, "ret": "absent"}),
+            },
+            "remove_named_item" => {
+                e.as_node().attributes().unwrap().remove_named_item(&n)?;
+                json!({"ok": true, "ret": ""})
+            }
+            _ => json!({"panic": "harness: unknown op"}),
+        })
+    });
+    match r {
+        Ok(Ok(j)) => j,
+        Ok(Err(e)) => json!({"err": err_name(&e)}),
+        Err(p) => json!({"panic": p.chars().take(80).collect::<String>()}),
+    }
+}
+
+fn am_key(am: &J) -> String {
+    let mut s = String::new();
+    for n in ATTR_NAMES {
+        s.push_str(&format!("{}:{}:{}:{};", n, am[n]["present"], am[n]["v"], am[n]["spec"]));
+    }
+    s
+}
+
+pub fn elem_attrs(args: &[String]) -> i32 {
+    let inp = arg_value(args, "--in").unwrap_or("-");
+    let outp = arg_value(args, "--out").unwrap_or("-");
+    let walks: usize = arg_value(args, "--walks").and_then(|v| v.parse().ok()).unwrap_or(50);
+    let seed: u64 = arg_value(args, "--seed").and_then(|v| v.parse().ok()).unwrap_or(1);
+    let mut states: Vec<(J, Vec<J>)> = vec![];
+    let mut index: HashMap<String, usize> = HashMap::new();
+    for_each_case(inp, |v| {
+        if v.get("edges").is_some() {
+            let mut edges = v["edges"].as_array().cloned().unwrap_or_default();
+            edges.sort_by_key(|e| e["call"].to_string());
+            index.insert(am_key(&v["s"]), states.len());
+            states.push((v["s"].clone(), edges));
+        }
+    });
+    let mut out = open_out(outp);
+    let fresh = || -> Option<(XmlDocument, xml_dom::XmlElement)> {
+        let d = parse(ATTR_DOC, false)?;
+        let e = root(&d)?;
+        Some((d, e))
+    };
+    let (_d0, e0) = match fresh() {
+        Some(x) => x,
+        None => {
+            eprintln!("cannot parse the attribute document");
+            return 2;
+        }
+    };
+    let init = match index.get(&am_key(&observe_attrs(&e0)["am"])) {
+        Some(i) => *i,
+        None => {
+            // the parsed document is not the initial state of the model: report it as an event
+            writeln!(out, "{}", json!({"event": "attrs", "hist": [], "pre": observe_attrs(&e0), "call": {"op": "parse", "n": "", "v": ""},
+                "out": {"ok": true, "ret": ""}, "post": observe_attrs(&e0), "init": true})).unwrap();
+            0
+        }
+    };
+    // BFS tree over the specification's graph
+    let mut parent: Vec<Option<(usize, usize)>> = vec![None; states.len()];
+    let mut seen = vec![false; states.len()];
+    let mut order = vec![init];
+    seen[init] = true;
+    let mut qi = 0;
+    while qi < order.len() {
+        let s = order[qi];
+        qi += 1;
+        for (ci, e) in states[s].1.iter().enumerate() {
+            if let Some(t) = e["out"].get("am").and_then(|am| index.get(&am_key(am))) {
+                if !seen[*t] {
+                    seen[*t] = true;
+                    parent[*t] = Some((s, ci));
+                    order.push(*t);
+                }
+            }
+        }
+    }
+    let mut events = 0usize;
+    let mut written = 0usize;
+    let mut step = |out: &mut Box<dyn Write>, e: &xml_dom::XmlElement, doc: &XmlDocument, edge: &J, hist: &[J], force: bool| -> J {
+        let pre = observe_attrs(e);
+        let outc = exec_attr(e, &edge["call"]);
+        let post = observe_attrs(e);
+        events += 1;
+        let exp = &edge["out"];
+        let mut ideal = false;
+        if exp.get("err").is_some() {
+            ideal = outc.get("err") == exp.get("err") && pre == post;
+        } else if outc.get("ok").is_some() && outc["ret"] == exp["ret"] {
+            ideal = am_key(&post["am"]) == am_key(&exp["am"])
+                && ATTR_NAMES.iter().all(|n| !post["am"][*n]["present"].as_bool().unwrap_or(false) || post["am"][*n]["nodev"] == post["am"][*n]["v"])
+                && post["len"].as_u64() == Some(ATTR_NAMES.iter().filter(|n| exp["am"][**n]["present"] == true).count() as u64);
+        }
+        let mut ev = json!({"event": "attrs", "hist": hist, "pre": pre, "call": edge["call"], "out": outc, "post": post});
+        if outc.get("ok").is_some() && edge["call"]["op"] != "get_attribute" {
+            let live = signature(doc);
+            let re = reparse(doc);
+            let same = match (&live, re.get("sig")) {
+                (Ok(l), Some(r)) => l == r,
+                _ => false,
+            };
+            if !same {
+                ideal = false;
+            }
+            ev["live_sig"] = live.unwrap_or_else(|e| json!({"panic": e}));
+            ev["re"] = re;
+        }
+        if !ideal || force {
+            written += 1;
+            writeln!(out, "{}", ev).unwrap();
+        }
+        post
+    };
+    let mut rng = StdRng::seed_from_u64(seed);
+    for &s in &order {
+        // path of calls from the initial state
+        let mut path = vec![];
+        let mut cur = s;
+        while let Some((f, ci)) = parent[cur] {
+            path.push(states[f].1[ci]["call"].clone());
+            cur = f;
+        }
+        path.reverse();
+        for edge in &states[s].1 {
+            let (d, e) = match fresh() {
+                Some(x) => x,
+                None => return 2,
+            };
+            for c in &path {
+                let _ = exec_attr(&e, c);
+            }
+            let force = rng.gen_range(0..20) == 0;
+            step(&mut out, &e, &d, edge, &path, force);
+        }
+    }
+    // walks
+    for _ in 0..walks {
+        let (d, e) = match fresh() {
+            Some(x) => x,
+            None => return 2,
+        };
+        let mut cur = init;
+        let mut hist: Vec<J> = vec![];
+        for _ in 0..12 {
+            let es = &states[cur].1;
+            let edge = &es[rng.gen_range(0..es.len())];
+            let post = step(&mut out, &e, &d, edge, &hist, true);
+            hist.push(edge["call"].clone());
+            match index.get(&am_key(&post["am"])) {
+                Some(n) => cur = *n,
+                None => break,
+            }
+        }
+    }
+    out.flush().unwrap();
+    println!("{}", json!({"states": states.len(), "events": events, "written": written}));
+    0
 }
